@@ -16,7 +16,12 @@ RULE = (
     'classified by the real code (in-memory database and main(argv) on '
     'files); every recorded storm / rise row is compared with the maximal '
     'runs recomputed with rational arithmetic from the loaded tables, and '
-    'storm_total_rain_depth with the reference sum.  States = samples of '
+    'storm_total_rain_depth with the reference sum.  Time steps of one '
+    'second, one day and two days; long records: one motif (a storm and a '
+    'rise, two storms under one rise, one storm under two rises) at every '
+    'position of a quiet 1100-step record and within 4 steps of every '
+    'multiple of 500 or 512 of an 8300-step record (thorough: at every '
+    'position of the 8300-step record).  States = samples of '
     'the record (the reference automaton steps once per sample).  '
     'Non-trivial = at least one pair recorded.')
 ASSUMPTIONS = [
@@ -30,9 +35,11 @@ ASSUMPTIONS = [
 def BOUND(tier):
     return {
         'quick': 'ternary records n<=4 (<=2 gaps) on 4 combos, n=5 (no gap) '
-                 'on 1 combo, binary n<=7; CLI n<=3',
+                 'on 1 combo, binary n<=7; CLI n<=3; steps 1 s / 1 d / 2 d '
+                 'n=3; motif positions in records of 1100 and 8300 steps',
         'thorough': 'ternary n<=5 (all gap masks) on 5 combos, n=6 (<=1 gap) '
-                    'on one combo, binary n<=9; CLI n<=4',
+                    'on one combo, binary n<=9; CLI n<=4; steps 1 s / 1 d / '
+                    '2 d n=4; every motif position in a record of 8300 steps',
     }[tier]
 
 
@@ -77,6 +84,11 @@ def spaces(tier):
         out.append(cs.db_space(4, combo, 1))
     for combo in cs.LONGSTEP:
         out.append(cs.db_space(3 if tier == 'quick' else 4, combo, 1))
+    if tier == 'quick':
+        out.append(cs.long_space(1100, cs.COMBOS[2]))
+        out.append(cs.long_space(8300, cs.COMBOS[2], around=(500, 512)))
+    else:
+        out.append(cs.long_space(8300, cs.COMBOS[2]))
     out.append(cs.sequence_space(3 if tier == 'quick' else 4))
     out.append(cs.sequence_space(3 if tier == 'quick' else 4, dataset=3))
     return out
